@@ -67,7 +67,7 @@ PROPS["C16"] = {
 
 PROPS["C07"] = {
     "witness_always": ["stdlib_expansion"],
-    "witness_bound": {"stdlib_expansion": "2202 generated conditional trees of depth <= 3 (\\iftrue/\\iffalse/\\ifnum/\\ifodd incl. negative operands/\\ifcase -1..3, \\let aliases, unbalanced braces in skipped text, blanks and relations produced by macro expansion) against a tree evaluator; every token string of length <= 6 over {\\expandafter, three macros, a letter, a macro with a DELIMITED parameter (which grabs tokens unexpanded, so the moment of each expansion shows in the output)} (42856 strings without runaway arguments) expanded by BOTH \\expandafter implementations against a transcription of TeX's expand-once rule"},
+    "witness_bound": {"stdlib_expansion": "2202 generated conditional trees of depth <= 3 (\\iftrue/\\iffalse/\\ifnum/\\ifodd incl. negative operands/\\ifcase -1..3, \\let aliases, unbalanced braces in skipped text, blanks and relations produced by macro expansion) against a tree evaluator; every token string of length <= 6 over {\\expandafter, three macros, a letter, a macro with a DELIMITED parameter (which grabs tokens unexpanded, so the moment of each expansion shows in the output)} (42856 strings without runaway arguments) expanded by BOTH \\expandafter implementations against a transcription of TeX's expand-once rule; every string of length <= 5 over {\\expandafter, \\noexpand, two macros, a letter, the delimited macro} (7969 strings) against a model that carries TeX's dont_expand MARK (set by \\noexpand, consumed by the next read, dropped by unexpanded reads): one known finding (mark lost when \\noexpand is expanded through \\expandafter, 550 strings of that class; 14 more not judged because the deviation turns them into runaway arguments)"},
     "level": "proof",
     "verus": ["stdlib_cond", "stdlib_expandafter", "texlang_streams", "texlang_parse_int"],
     "kani": [],
@@ -152,7 +152,7 @@ PROPS["C15"] = {
 
 PROPS["C02"] = {
     "level": "proof",
-    "verus": ["texlang_macro", "texlang_macrocall", "stdlib_def", "stdlib_defprim", "stdext_kmp"],
+    "verus": ["texlang_macro", "texlang_macrocall", "stdlib_def", "stdlib_defprim", "stdext_kmp", "texlang_streams"],
     "kani": [],
     "witness_always": ["texlang_macro"],
     "witness_bound": {"texlang_macro": "real VM vs an executable transcription of TeX's macro_call: prefix {none, one token} x parameters {undelimited, delimited by 1-2 tokens, trailing #{} x 1-2 parameters x 10 argument shapes (empty, token, group, several groups, nested groups, leading spaces) x 3-4 replacement texts, plus 3 to 9 parameters (mixed kinds, every parameter used, reversed and repeated, with and without a trailing #{) = 4618 definitions+calls, tokens after the call included"},
